@@ -6,6 +6,7 @@ import random
 import apicheck as A
 import gen_html as H
 import htmlobs as HO
+import imgconv as IC
 from common import run_driver
 
 PROFILE = dict(separators=True, style_map=0.7, hostile=0.8, p_hyperlink=0.3, p_bookmark=0.2, p_image=0.2, p_note=0.15, p_field=0.2, p_comment=0.1)
@@ -56,6 +57,24 @@ def substitute(parts, opts, sigma):
     return parts, opts
 
 
+def image_cases(seed, n):
+    import props.c17 as P17
+    irng = random.Random(seed * 7919 + 202)
+    ics = []
+    for i in range(n):
+        c = P17.image_case(seed * 1000003 + 500000 + i, texts=lambda: IC.hostile_text(irng), odd_types=True)
+        c["key"] = "c02-img-%d-%d" % (seed, i)
+        conv = c["options"].get("imageConv")
+        if conv is None and irng.random() < 0.5:
+            conv = c["options"]["imageConv"] = IC.vary_converter(irng, {"kind": "fixed", "attrs": [["src", "x.png"]], "open": irng.random() < 0.3})
+        if conv is not None:
+            conv["attrs"] = [[k, v if (k == "alt" and v == "") or irng.random() < 0.3 else IC.hostile_text(irng)] for k, v in conv["attrs"]]
+            if irng.random() < 0.3:
+                conv["attrs"].append(["title", IC.hostile_text(irng)])
+        ics.append(c)
+    return ics
+
+
 def run(out, tier, seed, model_ok):
     rng = random.Random(seed * 7919 + 2)
     n = common.deepen(1200 if tier == "quick" else 15000)
@@ -67,8 +86,16 @@ def run(out, tier, seed, model_ok):
             c["options"]["idPrefix"] = rng.choice(["<", "\"x", "a&b", "&lt;", "p q", "é"])
         if rng.random() < 0.15:
             c["options"]["imageConv"] = {"kind": "fixed", "attrs": [["src", rng.choice(["x.png", "\"><img>", "a&b", "data:image/png;base64,\"<&"])], ["title", rng.choice(["<t>", "&amp;", "ok"])]], "open": False}
-    run_ = A.ApiRun(out, "C02", model_ok, project, observers=[well_formed], name="wellformed")
+            IC.vary_converter(rng, c["options"]["imageConv"])
+    run_ = A.ApiRun(out, "C02", model_ok, project, observers=[well_formed, IC.prescribed], name="wellformed")
     run_.run(cs, nontrivial=lambda c, r: any(ch in r.get("value", "") for ch in ("&lt;", "&quot;", "&amp;")))
+    # alt text and converter-given attribute values, image by image: documents with several pictures (also the same picture again
+    # under another description or none), hostile strings as descriptions / titles / converter attribute values, converters that
+    # return a new dict, one constant dict or a remembered dict per picture - within one conversion and over consecutive ones
+    ics = image_cases(seed, common.deepen(250 if tier == "quick" else 3000))
+    run_i = A.ApiRun(out, "C02", model_ok, project, observers=[well_formed, IC.prescribed], name="images")
+    run_i.run(ics, nontrivial=lambda c, r: len(c["imgs"]) >= 2)
+    IC.sequences(out, "C02", ics, random.Random(seed * 7919 + 203), [well_formed, IC.prescribed], common.deepen(80 if tier == "quick" else 1000))
     # substitution half (metamorphic, real code only): distinct non-empty strings for distinct originals
     m = 300 if tier == "quick" else 4000
     table = {}
@@ -118,7 +145,10 @@ def run(out, tier, seed, model_ok):
     out.rule = ("generated packages with hostile strings (< > & \" ' ; # entity-like sequences) in text, link targets, bookmark names, alt text, id_prefix, style-map "
                 "attribute/class values and image-converter attributes, plain tag/attribute names; observation: independent strict lexer accepts the output (balanced, "
                 "void self-closed, only the four entities) and the decoded strings/shape equal those of the Lean model; metamorphic substitution of strings keeps the "
-                "shape; plus the writer alone on random forests; non-trivial = some character had to be escaped")
+                "shape; documents with several pictures (also one picture under different descriptions) with hostile alt texts and converter attribute values, converters returning "
+                "a new dict / one constant dict / a remembered dict per picture / a running number, also one converter object over consecutive conversions: every img carries "
+                "exactly what the converter returned for that image + the image's own alt text unless the converter gave one, converter-owned dicts untouched; "
+                "plus the writer alone on random forests; non-trivial = some character had to be escaped")
     out.extra["features"] = run_.stats
     out.sample({"options": cs[0]["options"]})
     out.sample({"forest": forests[0] if forests else None})
@@ -143,5 +173,7 @@ def replay(out, payload, model_ok):
             out.violation("written HTML differs from the writer specification", case, expected=m_["write"], actual=w.as_string())
         out.rule = "replay"
         out.sample(case)
+    elif case.get("kind") == "image-sequence":
+        IC.replay_sequence(out, payload, [well_formed, IC.prescribed])
     else:
-        A.replay_case(out, "C02", model_ok, payload, project, [well_formed])
+        A.replay_case(out, "C02", model_ok, payload, project, [well_formed, IC.prescribed])
